@@ -1,4 +1,5 @@
 import Zlink.Proofs.IdlIfaceRT
+import Zlink.Proofs.IdlLayoutIface
 /-! # C13 — The IDL parser accepts exactly the Varlink grammar and builds the denoted tree
 
 Model: `Zlink/Model/Idl.lean` + `parseInterface` in `Zlink/Model/IdlRender.lean` — a function-by-function port of
@@ -56,6 +57,22 @@ theorem C13_types_complete (t : Ty) (z : In) (ht : tyOK t = true) (hv : noVC t =
 theorem C13_complete (a : Iface) (hok : ifaceOK a = true) (hvc : noVCI a = true) :
     parseInterface (refText a) = .ok a := parseInterface_ref a hok hvc
 
+/-- **Completeness for every layout** (unbounded): `IfaceCoreL a core` is the Varlink grammar as an
+    inductive relation between descriptions and texts (`Zlink/Proofs/IdlLayout{Ws,Ty,Member,Iface}.lean`):
+    gaps (any string of space, tab, CR, LF) wherever two tokens meet inside parentheses, before and after
+    `:` `,` `->`, after the keywords (there non-empty) and between members (non-empty); comment lines
+    `#`, any blanks, text, line end, gap in front of the interface, of every member, field, parameter and
+    custom-enum variant; members of the three kinds in any interleaving. Every text of the relation,
+    with an optional gap before and after it, parses to exactly the description — whatever the names,
+    the nesting depth, the numbers of members, fields, variants and comments, and the layout. -/
+theorem C13_layout {a : Iface} {core : In} (h : IfaceCoreL a core) (lead trail : In)
+    (hl : wsOnly lead = true) (ht : wsOnly trail = true) :
+    parseInterface (lead ++ core ++ trail) = .ok a := parseInterface_layout h lead trail hl ht
+
+/-- … and the same for type expressions alone: every layout of a type is read back by `varlink_type`. -/
+theorem C13_types_layout {t : Ty} {s : In} (ht : TyL t s) (z : In) (hz : stopTyG z) :
+    varlinkType (tyFuel (s ++ z)) (s ++ z) = .ok t z := varlinkType_tyFuelL ht z hz
+
 /-- The statement without the side condition on inline enums (kept visible): it is *false* for a
     constructor-built inline enum with a commented variant, whose only rendering is the multi-line form
     the parser refuses (known finding of C14). -/
@@ -87,5 +104,24 @@ example : parseInterface (refText tree) = .ok tree := C13_complete tree (by deci
 example : rejects [105, 110, 116, 101, 114, 102, 97, 99, 101, 32, 97, 46, 98, 10, 109, 101, 116, 104, 111, 100, 32, 77, 40, 97, 58, 41, 32, 45, 62, 32, 40, 41] = true := by decide +kernel
 example : rejects [105, 110, 116, 101, 114, 102, 97, 99, 101, 32, 97, 46, 98, 10, 101, 114, 114, 111, 114, 32, 70, 111, 111] = true := by decide +kernel
 example : rejects [105, 110, 116, 101, 114, 102, 97, 99, 101, 32, 111, 114, 103, 46, 101, 120, 97, 109, 112, 108, 101, 46] = true := by decide +kernel
+
+/-! a laid-out text: `\n# c\ninterface a.b\nmethod M( x : ?[]int ) -> ()` + trailing ` \n` -/
+def laidOut : Iface :=
+  { name := [97, 46, 98], cs := [[99]], types := [], methods := [⟨[77], [([120], .optional (.array .int), [])], [], []⟩], errors := [] }
+def methodText :=
+  MethodL.mk (name := [77]) (cs := []) (sc := []) (g1 := [32]) (g2 := []) (g3 := [32]) (g4 := [32]) .nil (by decide) (by decide) (by decide)
+    (ParamsL.cons (g0 := [32]) (by decide)
+      (FieldL.mk (n := [120]) (cs := []) (g1 := [32]) (g2 := [32]) .nil (by decide) (by decide) (by decide) (TyL.optional rfl (TyL.array TyL.int)))
+      (FieldsMoreL.done (g := [32]) (by decide)))
+    (by decide) (by decide) (ParamsL.nil (g := []) (by decide))
+def coreText :=
+  IfaceCoreL.mk (name := [97, 46, 98]) (cs := [[99]]) (g1 := [32])
+    (CommentsL.cons (b := [32]) (c := [99]) (post := []) (by decide) (by decide) (by decide) .nil) (by decide) (by decide +kernel)
+    (MembersL.cons (g := [10]) (by decide) (by simp) (MemberL.me methodText) .nil)
+/-- the layout theorem applied to that text (its hypotheses are satisfiable) … -/
+example := C13_layout coreText [10] [32, 10] (by decide) (by decide)
+/-- … and the parser model evaluated on the same bytes by the kernel -/
+example : (match parseInterface ("\n# c\ninterface a.b\nmethod M( x : ?[]int ) -> () \n".toUTF8.toList) with
+    | .ok b => refText b == refText laidOut | .error => false) = true := by decide +kernel
 end Example
 end C13
